@@ -671,8 +671,10 @@ ReadOnly(cmd) ==
      THEN \* the implicit human checkpoint of the person's unreported edits (as `git-ai checkpoint` would take it)
           LET op(D) == CkResult(D, wl[head], ini[head], isnap[head], HeadTree, wt, idx, "human", H,
                                 { f \in File : dirty[f] = H }, FALSE)
+          \* (the checkpoint is skipped when the log holds no AI state yet, so the person's edits do NOT count as
+          \* reported afterwards: `dirty` stays, and the agent protocol still asks for a human checkpoint)
           IN /\ AiAdopt(SameG, [wl EXCEPT ![head] = op(Dev)], ini, notes, FiredDevs(op))
-             /\ dirty' = [f \in File |-> IF dirty[f] = H THEN None ELSE dirty[f]]
+             /\ dirty' = dirty
      ELSE AiSame(SameG) /\ dirty' = dirty
   /\ UNCHANGED <<truth, nu, der, stash, snote, ops>>
   /\ Step2([a |-> "ReadOnly", cmd |-> cmd], IF cmd = "dryrun" THEN DryViol ELSE StutterViol)
